@@ -20,6 +20,7 @@ import (
 	"math/rand"
 	"os"
 	"runtime/debug"
+	"sort"
 	"strconv"
 	"sync/atomic"
 	"testing"
@@ -161,7 +162,33 @@ func (s *lsSim) open() {
 	s.db = db
 }
 
+// lsTree prints the files under dir (debug aid, VERIF_DEBUG=ls)
+func (s *lsSim) lsTree(dir string, indent string) {
+	names, err := s.mem.List(dir)
+	if err != nil {
+		return
+	}
+	sort.Strings(names)
+	for _, n := range names {
+		p := s.mem.PathJoin(dir, n)
+		st, err := s.mem.Stat(p)
+		if err != nil {
+			continue
+		}
+		if st.IsDir() {
+			fmt.Printf("%s%s/\n", indent, n)
+			s.lsTree(p, indent+"  ")
+		} else {
+			fmt.Printf("%s%s %d\n", indent, n, st.Size())
+		}
+	}
+}
+
 func (s *lsSim) emit(ev jLsEv) {
+	if os.Getenv("VERIF_DEBUG") == "ls" {
+		fmt.Printf("=== step %d op %s crashed=%v at=%d\n", s.step, ev.Op, ev.Crashed, ev.At)
+		s.lsTree("/ls", "  ")
+	}
 	ev.T, ev.I = s.tid, s.step
 	s.step++
 	if ev.Ups == nil {
@@ -687,8 +714,17 @@ func TestVerifLssim(t *testing.T) {
 		if tid%8 < 6 {
 			batchSize = 4
 		}
-		// Tan's log file size is a constant (64MB): rollover and index-block boundaries are
-		// reached with multi-megabyte payloads in some of the Tan traces
+		// Tan's log file size is a constant (64MB): the verif hook of internal/tan lowers it (and the
+		// MANIFEST limit) in most Tan traces so that log rotation, index files of full logs, MANIFEST
+		// roll-over and removal of obsolete files happen every few saves, with crash points inside;
+		// a few traces reach the production boundaries with multi-megabyte payloads instead
+		tan.VerifMaxLogFileSize, tan.VerifMaxManifestFileSize = 0, 0
+		if (s.flavour == "tan" || s.flavour == "tanmux") && tid%16 < 12 {
+			tan.VerifMaxLogFileSize = int64(700 + rng.Intn(4000))
+			if tid%2 == 0 || tid%16 >= 8 {
+				tan.VerifMaxManifestFileSize = int64(200 + rng.Intn(1500))
+			}
+		}
 		s.wide = s.flavour == "plain" && tid%32 == 4
 		s.big = (s.flavour == "tan" || s.flavour == "tanmux") && tid%16 >= 12 && os.Getenv("VERIF_BIG") == "1"
 		s.mem = vfs.NewStrictMem()
